@@ -106,8 +106,8 @@ def inRange (r : XR × XR) (v : XR) : Bool := XR.ge v r.1 && XR.le v r.2
 def useLocations (first : Input) (cfg : Cfg) : Except String (List XR) := do
   let ids := first.locs.map (·.id)
   let u1 ← (if cfg.latRange.isSome || cfg.lonRange.isSome then
-      let latR := cfg.latRange.getD (.fin (-90), .fin 90)
-      let lonR := cfg.lonRange.getD (.fin (-180), .fin 180)
+      let latR := cfg.latRange.getD (.ninf, .pinf)
+      let lonR := cfg.lonRange.getD (.ninf, .pinf)
       let ll := (first.locs.filter fun l => inRange latR l.lat && inRange lonR l.lon).map (·.id)
       let u := match cfg.locations with
         | some ls => ls.filter fun l => memX l ll
@@ -135,6 +135,13 @@ def hourOfDay (t : XR) : XR := match t with
   | .fin q => .fin (((q.floor % 86400 : Int) : Rat) / 3600)
   | x => x
 
+/-- the three "No valid … selected" error exits (data.py:159-164) -/
+def checkNonEmpty (tvals lvals xvals : List XR) : Except String Unit :=
+  if tvals.isEmpty then .error "No valid times selected"
+  else if lvals.isEmpty then .error "No valid leadtimes selected"
+  else if xvals.isEmpty then .error "No valid locations selected"
+  else .ok ()
+
 def Data.init (scored : List Input) (cfg : Cfg) : Except String DataS := do
   let inputs := scored ++ cfg.clim.toList
   let first ← match inputs with
@@ -144,9 +151,7 @@ def Data.init (scored : List Input) (cfg : Cfg) : Except String DataS := do
   let tvals := commonValues cfg.times (inputs.map (·.times))
   let lvals := commonValues cfg.leads (inputs.map (·.leads))
   let xvals := commonValues (some useLocs) (inputs.map fun I => I.locs.map (·.id))
-  if tvals.isEmpty then throw "No valid times selected"
-  if lvals.isEmpty then throw "No valid leadtimes selected"
-  if xvals.isEmpty then throw "No valid locations selected"
+  checkNonEmpty tvals lvals xvals
   let t1 := match cfg.dateStarts with
     | some ds => tvals.filter fun t => memX (dayStart t) ds
     | none => tvals
